@@ -141,6 +141,11 @@ def configs(rng, thorough):
             pool = (rs["required"] + rs["optional"]) if rng.random() < 0.85 else allin    # mostly plain inputs; sometimes cycle seeds
             if pool:
                 prog["bound"] = [[b, f"bound.top.{b}"] for b in rng.sample(pool, rng.randint(1, min(2, len(pool))))]
+        elif rs["entry"] and rng.random() < 0.5:
+            # EVERY seed of one entry point is pre-filled: that cycle needs nothing from the caller any more
+            e = rng.choice(sorted(rs["entry"]))
+            prog["bound"] = [[b, f"bound.top.{b}"] for b in rs["entry"][e]]
+            kind += "+all-seeds-bound"
         if rng.random() < 0.3 and data:
             prog["selected"] = rng.sample(data, rng.randint(1, min(2, len(data))))
         if rng.random() < 0.3 and nongate:
